@@ -29,7 +29,7 @@ PLURALS = {"volt": "volts", "byte": "bytes", "candela": "candelas", "day": "days
            "inch": "inches", "lb": "lbs", "meter": "meters", "metre": "metres", "mile": "miles", "minute": "minutes",
            "month": "months", "point": "points", "pound": "pounds", "radian": "radians", "second": "seconds",
            "tesla": "teslas", "year": "years"}
-LITERALS = ["3", "-3", "3.5", ".5", "1e3", "1E-2", "+2", "0"]
+LITERALS = ["3", "-3", "3.5", ".5", "1e3", "1E-2", "+2", "0", "3E+2", "2e+1", "-1.5E-3"]
 ERR = 1
 
 
@@ -260,7 +260,7 @@ def worker(rec, shard, nshards, setups, lits, seed):
 def run(ctx):
     files = core.bundled_files() if ctx.thorough else ["HED8.3.0.xml", "HED8.2.0.xml", "HED8.0.0.xml",
                                                        "HED_score_2.0.0.xml"]
-    lits = LITERALS if ctx.thorough else ["3", "-3.5", "1e3", ".5"]
+    lits = LITERALS if ctx.thorough else ["3", "-3.5", "1e3", ".5", "+2", "3E+2"]
     setups = [Setup(f) for f in files]
     ctx.rec.notes["bounds"] = {"schemas": files, "literals": lits,
                                "tags_with_units": {s.label: len(s.tags) for s in setups},
